@@ -156,11 +156,13 @@ func (u *Upstream) closeWithError(ctx context.Context, causeError error, opts ..
 		v(&opt)
 	}
 
-	state := u.stateWithoutLock()
+	// Read the two totals atomically: closeWithError runs without u.mu when it is reached from
+	// Close, so it must not walk the send buffer (stateWithoutLock) while the flush loop may
+	// still be appending to it.
 	resp, err := u.wireConn.SendUpstreamCloseRequest(ctx, &message.UpstreamCloseRequest{
 		StreamID:            u.ID,
-		TotalDataPoints:     state.TotalDataPoints,
-		FinalSequenceNumber: state.LastIssuedSequenceNumber,
+		TotalDataPoints:     atomic.LoadUint64(&u.totalDataPoints),
+		FinalSequenceNumber: atomic.LoadUint32(&u.sequence.Current),
 		ExtensionFields: &message.UpstreamCloseRequestExtensionFields{
 			CloseSession: opt.CloseSession,
 		},
